@@ -82,4 +82,13 @@ pub fn optable() {
     );
   }
   println!("{{\"not_ts\":{}}}", json_str(&samlang_ast::lir::verif_harness::not_ts()));
+  for op in [samlang_ast::hir::BinaryOperator::EQ, samlang_ast::hir::BinaryOperator::NE] {
+    println!(
+      "{{\"ref_cmp\":{},\"ts_literal\":{},\"ts_vars\":{},\"wat\":{}}}",
+      json_str(op.as_str()),
+      json_str(&samlang_ast::lir::verif_harness::ref_cmp_ts(op)),
+      json_str(&samlang_ast::lir::verif_harness::ref_cmp_vars_ts(op)),
+      json_str(&samlang_ast::wasm::verif_harness::ref_cmp_wat(op)),
+    );
+  }
 }
